@@ -152,6 +152,17 @@ def generic_decision(cond):
         return True, _atoms_if_plain([v])
     if tag in ("any", "all"):
         elems = list(why[1])
+        conds = [e for e in elems if is_unknown(e)]
+        if conds:
+            # any / all over CONDITIONS (np.all(|c| <= atol) ...): combine the generic outcomes of the conditions themselves
+            outs = [generic_decision(e)[0] if is_unknown(e) else bool(e) for e in elems]
+            if tag == "any":
+                if any(o is True for o in outs):
+                    return True, None
+                return (False if all(o is False for o in outs) else None), None
+            if any(o is False for o in outs):
+                return False, None
+            return (True if all(o is True for o in outs) else None), None
         z = _atoms_if_plain(elems)
         return True, z if tag == "any" else None
     if tag == "allclose":
